@@ -157,8 +157,12 @@ __CPROVER_assigns(verif_final_ok)
     S(s)->m >= 1 && S(s)->m <= MAXM && S(s)->cs->n >= S(s)->m && S(s)->cs->n <= MAXM && \
     __CPROVER_is_fresh(S(s)->cs->d, S(s)->cs->n * sizeof(void *)) && \
     (K) < S(s)->m && \
-    __CPROVER_is_fresh(((void **)S(s)->cs->d)[K], sizeof(struct Constraint)) && \
-    verif_K == ((void **)S(s)->cs->d)[K] && verif_K_idx == (K))
+    __CPROVER_is_fresh(verif_pool, S(s)->cs->n * sizeof(struct Constraint)) && \
+    verif_K == (void *)((struct Constraint *)verif_pool + (K)) && verif_K_idx == (K))
+/* ghost: the solver's constraints; element i of its vector is object i of this pool (instantiated at each cs[i] by the stub vector's element hook,
+ * which is also why the slots of the vector are in the frames below; nothing is stored there but the value the slot is assumed to hold) */
+extern void *verif_pool; extern void *verif_g_cs;
+#define CS_SLOTS(s) __CPROVER_object_whole(S(s)->cs->d)
 #endif
 
 #if defined(JOB_incsatisfy_tail)
@@ -168,7 +172,7 @@ __CPROVER_requires(VALID_SOLVER_K(s, K))
  * positions were copied from that state */
 __CPROVER_ensures(!verif_thrown ==> (SCAN_OK && verif_final_ok))
 __CPROVER_ensures(__CPROVER_old(verif_thrown) ==> verif_thrown)
-__CPROVER_assigns(verif_Kslack, verif_final_ok, verif_thrown)
+__CPROVER_assigns(verif_Kslack, verif_final_ok, verif_thrown, verif_g_cs, CS_SLOTS(s))
 ;
 void h_incsatisfy_tail(void) { void *s; size_t K; w_incsatisfy_tail(s, K); VERIF_CANARY; }
 #endif
@@ -178,7 +182,7 @@ _Bool w_satisfy_tail(void *s, size_t K)
 __CPROVER_requires(VALID_SOLVER_K(s, K))
 __CPROVER_ensures(!verif_thrown ==> (SCAN_OK && verif_final_ok))
 __CPROVER_ensures(__CPROVER_old(verif_thrown) ==> verif_thrown)
-__CPROVER_assigns(verif_Kslack, verif_final_ok, verif_thrown)
+__CPROVER_assigns(verif_Kslack, verif_final_ok, verif_thrown, verif_g_cs, CS_SLOTS(s))
 ;
 void h_satisfy_tail(void) { void *s; size_t K; w_satisfy_tail(s, K); VERIF_CANARY; }
 #endif
@@ -190,7 +194,7 @@ __CPROVER_ensures(!verif_thrown ==> SCAN_OK)
 __CPROVER_ensures(__CPROVER_old(verif_thrown) ==> verif_thrown)
 /* the tail changes nothing but the exception flag */
 __CPROVER_ensures(FEQ(verif_Kslack, __CPROVER_old(verif_Kslack)))
-__CPROVER_assigns(verif_thrown)
+__CPROVER_assigns(verif_thrown, verif_g_cs, CS_SLOTS(s))
 ;
 void h_refine_tail(void) { void *s; size_t K; w_refine_tail(s, K); VERIF_CANARY; }
 #endif
@@ -300,7 +304,11 @@ void w_addConstraint(void *s, void *c)
 __CPROVER_requires(__CPROVER_is_fresh(s, sizeof(struct IncSolver)))
 __CPROVER_requires(__CPROVER_is_fresh(c, sizeof(struct Constraint)))
 __CPROVER_requires(__CPROVER_is_fresh(C(c)->left, sizeof(struct Variable)))
+#ifdef ADD_SAME_VARIABLE
+__CPROVER_requires(C(c)->right == C(c)->left)
+#else
 __CPROVER_requires(__CPROVER_is_fresh(C(c)->right, sizeof(struct Variable)))
+#endif
 /* stub vector: room for one more element (no reallocation model) */
 __CPROVER_requires(VECOK(S(s)->inactive) && VECOK(C(c)->left->out) && VECOK(C(c)->right->in))
 __CPROVER_requires(S(s)->m < 1000000)
@@ -362,7 +370,9 @@ void w_merge_body(void *s, void *v);
 void h_merge_body(void)
 {
     struct IncSolver sol; struct Constraint v, sc; struct Variable l, r; struct Block bl, br; void *slots[8]; _Bool has_split, same_block;
-    v.left = &l; v.right = &r; l.block = &bl; r.block = same_block ? &bl : &br;
+    _Bool same_variable;                                            /* x + g <= x: both ends one variable (then necessarily one block) */
+    v.left = &l; v.right = same_variable ? &l : &r; l.block = &bl; r.block = same_block ? &bl : &br;
+    if (same_variable) same_block = 1;
     sol.inactive.d = slots; sol.inactive.cap = 8; __CPROVER_assume(sol.inactive.n <= 4);
     __CPROVER_assume(!v.active && !sc.active);                      /* only inactive constraints are handed to the loop body */
     verif_split_result = has_split ? (void *)&sc : (void *)0;
